@@ -294,21 +294,25 @@ hz_harness!(hz_arm_equiv_inv_cipher_round, 33, 40, |inp| {
     Some(b.0 == ra::xor(&ra::inv_round_core(&blk), &key))
 });
 
-//@ harness name=hz_arm_mix_columns prop=C17,C03 tier=quick bits=129 stub=1 est=100 variants=aes:armv8+hazmat desc="hazmat::mix_columns == FIPS-197 MixColumns (armv8: AESMC), hazmat::inv_mix_columns == InvMixColumns (AESIMC), and they are mutual inverses; all 2^128 blocks, either dispatch arm of the aarch64 build"
+// (that MixColumns and InvMixColumns of the oracle are mutually inverse is the oracle lemma c02_ni::fips_eqinv_lemmas;
+// together with the two equalities below it makes hazmat::mix_columns / inv_mix_columns mutually inverse)
+//@ harness name=hz_arm_mix_columns prop=C17,C03 tier=quick bits=129 stub=1 est=100 variants=aes:armv8+hazmat desc="hazmat::mix_columns == FIPS-197 MixColumns for all 2^128 blocks, on either dispatch arm of the aarch64 build (CPU answer symbolic: armv8 = LD1, AESMC, ST1 under the concrete instruction model; or fixslice64 software)"
 hz_harness!(hz_arm_mix_columns, 17, 40, |inp| {
     va::set_concrete(true);
     ni_model::set_cpu(inp[16] & 1 == 1);
     let blk: [u8; 16] = take(inp, 0);
     let mut b = blk.into();
     hazmat::mix_columns(&mut b);
-    vcheck!(b.0 == ra::mix_columns(&blk));
-    hazmat::inv_mix_columns(&mut b);
-    vcheck!(b.0 == blk);
+    Some(b.0 == ra::mix_columns(&blk))
+});
+//@ harness name=hz_arm_inv_mix_columns prop=C17,C03 tier=quick bits=129 stub=1 est=100 variants=aes:armv8+hazmat desc="hazmat::inv_mix_columns == FIPS-197 InvMixColumns for all 2^128 blocks, on either dispatch arm of the aarch64 build (armv8 = AESIMC)"
+hz_harness!(hz_arm_inv_mix_columns, 17, 40, |inp| {
+    va::set_concrete(true);
+    ni_model::set_cpu(inp[16] & 1 == 1);
+    let blk: [u8; 16] = take(inp, 0);
     let mut c = blk.into();
     hazmat::inv_mix_columns(&mut c);
-    vcheck!(c.0 == ra::inv_mix_columns(&blk));
-    hazmat::mix_columns(&mut c);
-    Some(c.0 == blk)
+    Some(c.0 == ra::inv_mix_columns(&blk))
 });
 
 //@ harness name=hz_arm_cipher_round_par prop=C17,C04 tier=quick bits=2048 stub=1 est=120 variants=aes:armv8+hazmat desc="hazmat::cipher_round_par on 8 arbitrary blocks with 8 arbitrary round keys == eight independent cipher_round calls with the respective keys (armv8 arm)"
